@@ -200,17 +200,26 @@ def h_validity_mask(ctx, case):
         # float16 weights: -1 (strictly valid) or >= resolution
         ctx.assume(Or(d == -1, d >= 0.001))
     nv = ctx.int('n_valid', 0, ng + 2)
+    vgi = None
+    if case.get('gene_list'):
+        vgi = np.array(ctx.subset('in_gene_list', ng), dtype=int)
+        if len(vgi) == 0:
+            raise core.PathAbort('empty gene list')
     try:
         mask = PM._get_validity_mask(
             n_valid=nv, n_genes=ng,
             gene_indices=np.array(listed, dtype=int),
-            raw_distances=arr(ctx, dist))
+            raw_distances=arr(ctx, dist), valid_gene_idx=vgi)
     except Exception as e:
         ctx.note('n_valid', 'symbolic')
         ctx.exception(e)
         return 'EXC ' + type(e).__name__
     ctx.reach('masked')
     for g in range(ng):
+        if vgi is not None and g not in vgi:
+            ctx.check(Not(mask[g]), 'a gene outside the gene list is never '
+                      'recorded')
+            continue
         if g in listed:
             d = dist[listed.index(g)]
             ctx.check(Implies(d == -1, mask[g]),
@@ -277,6 +286,35 @@ def h_score(ctx, case):
     return 'ok'
 
 
+def h_lookup_widths(ctx, case):
+    """_lookup_to_sparse / _write_to_tmp_file: the integer types chosen
+    for the per-chunk tables hold every gene index and every pointer
+    (gene indices around the uint8 / uint16 boundaries, few entries)"""
+    import cell_type_mapper.diff_exp.markers as MK
+    vals = [0, 1, 254, 255, 256, 257, 65535, 65536, 70000]
+    npairs = case['pairs']
+    lookup = {}
+    for i in range(npairs):
+        n = ctx.choice(f"n[{i}]", 3)
+        picks = sorted({vals[ctx.choice(f"g[{i},{k}]", len(vals))]
+                        for k in range(n)})
+        lookup[8 + i] = np.array(picks, dtype=np.int64)
+    try:
+        indptr, indices = MK._lookup_to_sparse(lookup)
+    except Exception as e:
+        ctx.exception(e)
+        return 'EXC ' + type(e).__name__
+    ctx.reach('serialised')
+    flat = [int(x) for i in sorted(lookup) for x in lookup[i]]
+    ctx.check([int(x) for x in indices] == flat,
+              'every gene index survives serialisation (type wide enough)')
+    ptr = [0]
+    for i in sorted(lookup):
+        ptr.append(ptr[-1] + len(lookup[i]))
+    ctx.check([int(x) for x in indptr] == ptr, 'pointer array exact')
+    return 'ok'
+
+
 def _rm_setup(case, mode):
     from harness import refmarkers as RM
     RM.setup(case, mode)
@@ -327,6 +365,12 @@ HARNESSES = [
                     'a threshold are not judged (the oracle uses scipy\'s '
                     't CDF)',
             expect_reach=['written'], split=32),
+    Harness('chunk_table_integer_widths', h_lookup_widths,
+            cases=[{'pairs': 1}, {'pairs': 2}],
+            funcs=['markers._lookup_to_sparse', 'utils.choose_int_dtype'],
+            bounds='1-2 pairs with 0-2 markers each, gene indices from '
+                   '{0,1,254,255,256,257,65535,65536,70000}',
+            expect_reach=['serialised'], split=16),
     Harness('holm_correction', h_holm, setup=setup_holm,
             cases=[{'n': 1}, {'n': 2}, {'n': 3}],
             thorough_cases=[{'n': 1}, {'n': 2}, {'n': 3}, {'n': 4}],
@@ -364,7 +408,8 @@ HARNESSES = [
                     'big_nu short-cuts',
             expect_reach=['computed'], selftest=20, query_timeout_ms=60000),
     Harness('mask_route_validity', h_validity_mask, setup=setup_mask,
-            cases=[{'genes': 2}, {'genes': 3}],
+            cases=[{'genes': 2}, {'genes': 3},
+                   {'genes': 3, 'gene_list': True}],
             funcs=['p_value_markers._get_validity_mask'],
             bounds='2-3 genes, any non-empty subset listed in the mask, '
                    'distances symbolic (-1 or >= float16 resolution), '
